@@ -1,3 +1,4 @@
+mod admission;
 mod codec;
 mod effects;
 mod expr;
@@ -21,6 +22,7 @@ fn main() {
         "kem" => kem::run(&a[2], &a[3]),
         "pathreq" => pathreq::run(&a[2], &a[3]),
         "ratchet" => ratchet::run(&a[2], &a[3]),
+        "admission" => admission::run(&a[2], &a[3]),
         _ => std::process::exit(2),
     }
 }
